@@ -99,6 +99,9 @@ class PathTheory:
             self.ex.axioms.append(z3.ForAll([a, b, c], z3.Implies(z3.And(P(a, b), E[b, c]), P(a, c))))
             self.ex.axioms.append(z3.ForAll([a, b, c], z3.Implies(z3.And(E[a, b], P(b, c)), P(a, c))))
             self.ex.axioms.append(z3.ForAll([a, b, c], z3.Implies(z3.And(P(a, b), P(b, c)), P(a, c))))
+            # theorems of the least fix-point: a non-trivial path has a first and a last edge
+            self.ex.axioms.append(z3.ForAll([a, b], z3.Implies(z3.And(P(a, b), a != b), z3.Exists([c], E[a, c]))))
+            self.ex.axioms.append(z3.ForAll([a, b], z3.Implies(z3.And(P(a, b), a != b), z3.Exists([c], E[c, b]))))
             self.rels[k] = (E, P)  # pin E: ast ids are recycled after garbage collection
             self.ex.assumed.add("Path_E axiomatised as a reflexive relation closed under E-steps; leastness only through "
                                 "explicitly listed induction instances (each a theorem of the least fix-point)")
